@@ -155,6 +155,7 @@ func runRHPCase(r *mon.Run, c RHPCase) {
 	}
 	time.Sleep(us(c.HoldUs))
 
+	r.Count("rhp.coreutils_goroutines_before_close", len(limitlab.Inventory(rhpOnly)))
 	p := bounded(func() { h.Server.Close() })
 	var p2 *pending
 	if c.Double {
@@ -226,6 +227,7 @@ func runRHPCase(r *mon.Run, c RHPCase) {
 		return
 	}
 	inv, ok := limitlab.Settle(settleBound/3, rhpOnly, func(g []limitlab.Goroutine) bool { return len(g) == 0 })
+	r.Count("rhp.coreutils_goroutines_after_close", len(inv))
 	if !ok {
 		r.Violation("goroutine-left-behind:rhp", "rhp goroutines are still alive after the server was closed and every transport was closed", vcase, limitlab.Keys(inv))
 		return
